@@ -331,6 +331,10 @@ func cmdCheck(args []string) int {
 			continue
 		}
 		violations++
+		if violations > 3 {
+			// the first violations carry a replay attempt; further ones are reported with the solver's output only
+			eng.ReplayBudget = time.Second
+		}
 		rp := writeReplay(*verif, *repo, &pd, ob, ld, *tier)
 		suffix := ""
 		if !rp.Reproduced {
